@@ -65,6 +65,10 @@ def showSV : SV → String
 def kindOf (dt : DT) : String :=
   if dt.isInt then "i" else if dt.isFloat then "f" else if dt = .b then "b" else "s"
 
+def dtName : DT → String
+  | .b => "b" | .i8 => "i8" | .i16 => "i16" | .i32 => "i32" | .i64 => "i64" | .u8 => "u8" | .u16 => "u16"
+  | .u32 => "u32" | .u64 => "u64" | .f32 => "f32" | .f64 => "f64" | .str => "str"
+
 def showNats (l : List Nat) : String := showList toString l
 
 def showROut : ROut → String
@@ -114,6 +118,11 @@ def answer : List String → String
   | ["readisnone", dt, v] => match parseDT? dt, parseSV? v with
       | some dt, some v => showBool (readIsNone dt v)
       | _, _ => "bad-op"
+  | ["replnones", es] => match parseList? parseEntry? es with
+      | some xs => match replaceNones xs with
+        | none => "reject"
+        | some (dt, data) => "ok " ++ dtName dt ++ " " ++ showList showSV data
+      | none => "bad-op"
   | ["directarr", dt, size, rows] =>
       match parseDT? dt, parseNat? size, parseList? (fun r => if r = "N" then some none else (parseList? parseSV? r).map some) rows with
       | some dt, some size, some xs =>
